@@ -13,7 +13,10 @@ import re
 from harness.common import dec_res, enc_val, ensure_impl_on_path, known_predicate, run_impl, same
 
 GEN_MODULES = ['excelutil', 'lookup']
-EXTRA_TARGETS = ('Proofs/C16.vo', 'Refuted/C16_blank_cell.vo', 'Refuted/C16_wildcard_tilde.vo')
+EXTRA_TARGETS = ('Proofs/C16.vo', 'Proofs/C16Order.vo', 'Proofs/C16Sorted.vo', 'Proofs/C16Desc.vo',
+                 'Proofs/C16Lookup.vo', 'Proofs/C16Wild.vo', 'Proofs/C16Wrap.vo', 'Refuted/C16_blank_cell.vo',
+                 'Refuted/C16_lookup_short.vo',
+                 'Refuted/C16_wildcard_tilde.vo')
 ASSUMPTIONS = [
     "cells and lookup values are scalars (numbers from the float-exact domain, text, logicals, blank, "
     "error codes); arrays are tuples of row tuples",
@@ -186,6 +189,27 @@ def wild_clause(v, a):
 
 
 # ---------------------------------------------------------------- generators
+# deterministic edge vectors (every run, every lookup value, every match type): sorted vectors that END in
+# a falsy value (0, "", FALSE), a repeated maximum / minimum (which of the equal cells is returned is fixed by
+# C16_match1_sorted / C16_match_m1_sorted and compared bit for bit), all-blank vectors, blanks at both ends
+EDGE_VECTORS = [
+    (0,), ('',), (False,), (-1, 0), (1, ''), ('a', False), (0, '', False), (-1, 0, None), (None, 0),
+    (None, None, 0, '', False, None), ('', None), (False, None, None), (None,), (None, None, None),
+    (1, 2, 2), (1, 2, 2, 2.0, 'a'), (1, 2.5, 2.5, 'a', 'B', 'b', True, True), ('a', 'b', 'B', True),
+    (None, 1, 1, 'a', 'A', None), (1, 2, '#DIV/0!'), (False, False, True, '#DIV/0!', '#N/A'),
+    (True, False), ('a', ''), (2, 0), (0, -1), (3, 3, 1), (5, 3, 3, 1), (5, 3, 3, 2, 2, 1),
+    ('#DIV/0!', True, 'b', 'B', 'a', 3, 3, 1), (None, 'b', 'a', 'A', None), (True, True, False, 'b', 2.5, 2.5),
+    (None, True, 'b', None), (2, 1, None), (None, 2, 1),
+]
+# square tables (array-form LOOKUP searches the first COLUMN of a square table) and result vectors
+# longer than the search vector (C16_lookup_array / C16_lookup_vector_col / _row)
+EDGE_SQUARES = [
+    ((1,),), ((1, 'r1'), (2, 'r2')), ((1, 5), (3, 7)), ((1, 2, 3), (2, 'x', 'y'), (3, 'z', 'w')),
+    (('a', 1, 2), ('b', 3, 4), ('c', 5, 6)), ((1, 2, 3, 4), (2, 0, 0, 'p'), (3, 0, 0, 'q'), (4, 0, 0, 'r')),
+    ((None, 2), (1, 3)), ((1, 'a'), (None, 'b')),
+]
+
+
 def gen_vectors(ctx):
     """(vector, tag) — exhaustive up to length 5 over POOL in the thorough tier, sampled in quick;
     sampled up to length 8 over the wide pool, sorted ascending/descending with blanks at the ends."""
@@ -215,6 +239,7 @@ def gen_vectors(ctx):
         trail = ctx.rng.choice([0, 0, 1, 2, 3])
         d = ([None] * lead + d + [None] * trail)[:8]
         out.append((tuple(d), 'sorted-desc' if k >= 0.65 else 'sorted-asc'))
+    out.extend((t, 'edge') for t in EDGE_VECTORS)
     return out
 
 
@@ -256,10 +281,11 @@ def run(ctx):
         "MATCH over vectors (all vectors up to length 5 over a 9-value pool of numbers, text in two cases, a "
         "logical, blank, an error code: exhaustive in the thorough tier, all up to length 2 plus a sample in "
         "quick; sampled vectors up to length 8 over an 18-value pool, unsorted / sorted ascending / descending "
-        "in Excel order with blanks at the ends, as a row and as a column) x 17 lookup values x match types "
+        "in Excel order with blanks at the ends, as a row and as a column; a fixed list of edge vectors: trailing "
+        "0/\"\"/FALSE, repeated maxima/minima, all blank) x 17 lookup values x match types "
         "{1,0,-1,omitted}; wildcard patterns x text vectors; _match and bisect_right directly; VLOOKUP/HLOOKUP "
         "over tables up to 6x4 (and transposes) x lookup values x every result index from -1 to size+2 x "
-        "range_lookup; LOOKUP vector and array form; INDEX over every row/column index. A case is a distinct "
+        "range_lookup; LOOKUP vector and array form (incl. fixed square tables and longer result vectors); INDEX over every row/column index. A case is a distinct "
         "(function, arguments) tuple.")
     calls = []       # (name, args) through the wrapped functions / '_match' / 'bisect'
     clause_count = ctx.extra.setdefault('violations_by_clause', {})
@@ -362,7 +388,7 @@ def run(ctx):
     for a, tag in vectors:
         if tag == 'exh' and len(a) == 5:
             lvs = POOL + [0]                   # thorough: every value of the pool as the lookup value
-        elif tag == 'exh' or ctx.tier == 'thorough':
+        elif tag in ('exh', 'edge') or ctx.tier == 'thorough':
             lvs = LOOKUPS
         else:
             lvs = ctx.rng.sample(LOOKUPS, 6) + [x for x in a[:3] if x is not None]
@@ -442,6 +468,18 @@ def run(ctx):
         add('index', '#REF!', 1, 1)
         add('index', 5, 1, 1)
         add('index', (1, 2, 3), 1, 1)
+    for t in EDGE_SQUARES:                      # judged by oracle 3 like every other 'lookup' call
+        h = len(t)
+        first = [r[0] for r in t]
+        for v in LOOKUPS:
+            add('lookup', v, t)
+            add('lookup', v, transpose(t))
+            longer = tuple(f"res{i}" for i in range(h + 2))
+            add('lookup', v, col_vec(first), col_vec(longer))
+            add('lookup', v, col_vec(first), (longer,))
+            add('lookup', v, (tuple(first),), col_vec(longer))
+            add('lookup', v, t, (longer,))
+            add('match', v, col_vec(first), 1)
     seen = set()
     uniq = []
     for c in calls:
